@@ -29,7 +29,7 @@ CHECKS.update({
  "C01": ("two halves at the message.Manager.Deliver interface: (1) the real SMTP session loop delivers exactly the envelope accepted since the last MAIL, once, exactly when the end of DATA is acknowledged (ghost envelope from reply codes); (2) the real StoreManager.Deliver + policy + memory store or file store (file-system model) give each eligible accepted recipient exactly one new message with sender/To/subject/size, nothing else changes",
          "both back-ends (file store over the file-system model, fewer instances); recipients from a menu of 5 addresses (duplicates by case/+ext, discard-listed domain), <= 3 recipients, 3 naming modes; enmime header decoding is a model; session half bounded as C03", "4 C01"),
  "C02": ("byte-exact content: Deliver -> mem.AddMessage or file.AddMessage (file-system model) -> Source()/Size() equals Return-Path + Received + body for every body of <= n symbolic bytes (all 256 values); REST and web UI source handlers write exactly Source(); POP3 RETR/TOP re-stuffs and CRLF-normalises line by line so that un-stuffing gives the source back",
-         "bodies <= 3 (thorough 10) bytes, POP3 sources <= 5 (8) bytes ending in LF (the shape textproto.ReadDotBytes produces); bufio.Scanner, textproto and io.Copy are models; lines beyond 64 KiB and MiB bodies are outside the claim", "4 C02"),
+         "bodies <= 3 (thorough 10) bytes, POP3 sources <= 5 (8) bytes ending in LF (the shape textproto.ReadDotBytes produces); bufio.Scanner (with its token-size limit), textproto and io.Copy are models; one concrete long-line scenario (lines of 4096..70000 bytes) is executed as a directed run; MiB bodies are outside the claim", "4 C02"),
  "C12": ("RetentionScanner.DoScan over the real memory store with symbolic message ages, period and a symbolic non-decreasing clock: expired => removed, young => retained in order, a delivery landing between the scanner's snapshot and its removals survives; Start/Join with cancellation at the n-th observation point: disabled for period <= 0, loop exits, no further mailbox visited",
          "memory back-end for the symbolic-age scan (<= 5 (6) messages in two mailboxes); file back-end: retention scan and stop-when-told visitor inside the C10 history harness; time.Time modelled as int64 nanoseconds; timers fire only when nothing else is ready (a closed Done wins over a pending timer)", "4 C12"),
  "C14": ("each REST v1 handler and web UI handler over the real StoreManager + memory store: status <=> existence for every name alias / id, payload and effects equal the store; the Go client's requests (real net/url + net/http request construction) match the server's route table incl. the body mark-seen requires; escaping round trip for all short ASCII names",
@@ -95,7 +95,7 @@ def main():
         "engines": [{"name": "gosmt", "path": "/verif/engine", "serves_properties": sorted(CHECKS), "kind_free_text": "go/ssa symbolic executor with state merging; SMT-LIB2 QF_BV queries decided by z3 5.1 (z3-new); counterexample and cover models replayed natively through `go test -overlay`"}],
         "checks": checks,
         "not_applicable": na,
-        "notes": "Every check exits 0 = all obligations unsat within the stated bounds and all cover points satisfiable and natively reached; 1 = replayed violation not listed in known_findings.json; 2 = broken (unsupported code, undecided query, vacuous harness, model that does not reproduce). fix: commits in /repo: 288c728 (C03), 7d87c36 (C06), 1c28c1b (C07), 3e84664 (C08), ab07dc1 (C14), 67b69e1 (C16), 4aea936+51ad804 (C15), 9975e1e+e3d37c1 (C19), eb0564f (C09), 9d661ca (C16 broker order), 9d98e20 (C07 file MarkSeen), ad2f77f+4c7bc0f (C11), 3de1e55 (C10 id reuse after restart), 9a3f2a1 (C04 domain case), 67ffb6e+cf6e756 (C04 empty / dotted base name).",
+        "notes": "Every check exits 0 = all obligations unsat within the stated bounds and all cover points satisfiable and natively reached; 1 = replayed violation not listed in known_findings.json; 2 = broken (unsupported code, undecided query, vacuous harness, model that does not reproduce). fix: commits in /repo: 288c728 (C03), 7d87c36 (C06), 1c28c1b (C07), 3e84664 (C08), ab07dc1 (C14), 67b69e1 (C16), 4aea936+51ad804 (C15), 9975e1e+e3d37c1 (C19), eb0564f (C09), 9d661ca (C16 broker order), 9d98e20 (C07 file MarkSeen), ad2f77f+4c7bc0f (C11), 3de1e55 (C10 id reuse after restart), 9a3f2a1 (C04 domain case), 67ffb6e+cf6e756 (C04 empty / dotted base name), 7c537cb (C02 POP3 long lines).",
     }
     json.dump(m, open('/verif/MANIFEST.json', 'w'), indent=1)
     print("checks:", [c['property_id'] for c in checks], "n/a:", len(na))
